@@ -292,10 +292,16 @@ class ConvRunner:
             desc = o["sl"]
             kind = desc[0]["kind"]
             sl = build(desc)
+            again_same = True
             if op == "DictRT":
+                import copy
                 d = G.sliver_to_dict(sl)
                 json.dumps(d)
+                d0 = copy.deepcopy(d)
                 back = FROM_DICT[kind](props=d)
+                # the dictionary handed in belongs to the caller: converting it again must give the same sliver
+                again = FROM_DICT[kind](props=d)
+                again_same = d == d0 and flatten(kind, again, "") == flatten(kind, back, "")
             else:
                 text = JSONSliver.sliver_to_json(sl)
                 if kind == "node":
@@ -306,7 +312,7 @@ class ConvRunner:
                     back = FROM_DICT[kind](props=json.loads(text))
             res = sliver_res(kind, back, desc[0]["path"])
             # the original must not have been touched by the conversion
-            res["orig_same"] = flatten(kind, sl, "") == flatten(kind, build(desc), "")
+            res["orig_same"] = flatten(kind, sl, "") == flatten(kind, build(desc), "") and again_same
             return res
         if op == "SetProp":
             kind, el = self.elem(o["path"])
